@@ -36,9 +36,11 @@ STATEMENTS = [
     'w2 = n => 1 if n < 2 else w2(n - 1) * n', 'w2(4)', 'mk = len => (y => len + y)', 'add = mk(1)', 'add(5)', 'mk(2)(3)' if False else 'map([1, 2], mk(3))',
     'fib = len => len if len < 2 else fib(len - 1) + fib(len - 2)', 'fib(5)', 'map([3], fib)',
     'deep = len => 0 if len < 1 else deep(len - 1) + 1', 'swallow(deep, 200); len', 'swallow_all(deep, 260); len("ab")', 'deep(160); y = 1', 'swallow_all(deep, 900); len',
+    # a call site evaluated before and after the name it calls is shadowed / a lambda without parameters that assigns
+    'gl = v => len("abc"); gl(0)', 'len = v => 42; gl(0)', 'gl(0)', 'map([1, 2], v => len("ab") + v)', 'b0()', 'b8(1)', 'map([1], v => b0() + v)', 'b0() + len("ab")',
     'f(None)', 'len = None', 'h(None)', 'map([None, 3], f)', 'f(0)', 'f(False)', 'f("")', 'len = 0', 'g = None', 'b3(None)',
 ]
-DEEP = ['swallow(deep, 200); len', 'swallow_all(deep, 260); len("ab")', 'swallow_all(deep, 900); len', 'w2(4)', 'add(5)', 'fib(5)', 'len', 'len("ab")', 'len = 5', 'len += 1', 'f(1)', 'g(0)', 'h(3)', 'b1(0)', 'b2(0)', 'b3(5)', 'swallow(r, 1); len',
+DEEP = ['gl = v => len("abc"); gl(0)', 'len = v => 42; gl(0)', 'b0()', 'b8(1)', 'swallow(deep, 200); len', 'swallow_all(deep, 260); len("ab")', 'swallow_all(deep, 900); len', 'w2(4)', 'add(5)', 'fib(5)', 'len', 'len("ab")', 'len = 5', 'len += 1', 'f(1)', 'g(0)', 'h(3)', 'b1(0)', 'b2(0)', 'b3(5)', 'swallow(r, 1); len',
         'swallow_all(r2, 1); len("abc")', 'map([1], g)', 'y']
 
 AST_BODIES = {
@@ -48,6 +50,8 @@ AST_BODIES = {
     'b4': (['y'], 'z = y; z = z + 1; z'),
     'b5': (['y'], 'len = 3; u_undefined'),
     'b6': (['y'], 'len = 4; 1 / 0'),
+    'b0': ([], 'len = 8; tmp0 = 1; len'),
+    'b8': (['len'], 'b0(); len'),
 }
 
 
